@@ -12,6 +12,7 @@ import (
 	"runtime/pprof"
 	"strings"
 	"time"
+	"verifsim/simrt"
 )
 
 type runArgs struct {
@@ -85,7 +86,7 @@ func cmdRun(args []string) {
 	start := time.Now()
 	b := newBatch(a.Engine, a.Property, a.Seed, a.Shard)
 	b.trace = *trace
-	b.pos = &BatchPos{Tier: a.Tier, Shard: a.Shard, NShards: a.NShards, N: a.N, Race: a.Race}
+	b.pos = &BatchPos{Tier: a.Tier, Shard: a.Shard, NShards: a.NShards, N: a.N, Race: a.Race, WeakHash: simrt.WeakHashBits()}
 	deadline := start.Add(time.Duration(a.MaxSecs * float64(time.Second)))
 	for run := a.Shard; run < a.N; run += a.NShards {
 		if time.Now().After(deadline) {
@@ -183,6 +184,10 @@ func cmdReplay(args []string) {
 		os.Exit(2)
 	}
 	raceMode = v.RaceReport != ""
+	if v.Batch != nil {
+		// the weak-hash mode of the worker process that saw the violation
+		simrt.SetWeakHash(v.Batch.WeakHash)
+	}
 	if *minimise {
 		mv := minimiseViolation(&v)
 		if err := writeJSON(*out, mv); err != nil {
